@@ -11,28 +11,38 @@
 From MoPep Require Import Model.Base Model.Rmats Proofs.RmatsProofs Gen.RmatsConst.
 Open Scope Z_scope.
 
-(* FULL STATEMENT (rmats_reproduces_isoform), of which the SE, RI and MXE clauses are proved below:
-     for every wf gene, both strands, every event, every record r emitted by the event's converter and every
-     transcript t = g_txs[r_tx r] whose exons coincide with the event (alt_X (t_exons t) ... = Some alt):
+(* rmats_reproduces_isoform (FULL: all five event types, both strands).
+   For every wf gene, every event, every record r emitted by the event's converter and the transcript
+   t = g_txs[r_tx r] whose exons coincide with the event in one of its two forms (alt_X (t_exons t) ... = Some alt):
         denotes g chrom t r alt
-     with  alt_se  (exon skipped / included),
-           alt_ss  (A5SS and A3SS: alternative splice site moved between the long and the short form),
-           alt_mxe (exon swapped),
-           alt_ri  (intron retained / spliced)                     -- all four defined in Model/Rmats.v.
-   Proved here for all inputs, both strands: the SE clause (deletion when the transcript carries U,E,D; insertion
-   when it carries U,D) and the RI clause (insertion of the intron when the transcript is spliced at upstreamEE /
-   downstreamES; deletion of the intron when one exon of the transcript covers it) and the MXE clause (the exclusive
-   exon the transcript carries between U and D is substituted by the other one, which lies in an intron next to it).
-   NOT proved in Coq (time): the A5SS/A3SS clause; for those two event types the statement is checked only by the
-   correspondence (model == implementation on every generated event, and the independent python reconstruction ==
-   ground-truth isoform on every in-scope record). *)
-Theorem rmats_reproduces_isoform_partial :
+   with  alt_se  - transcript carries U,E,D (E deleted) or U,D adjacent (E inserted);
+         alt_ss  - A5SS / A3SS: the exon next to the flanking exon has the long or the short splice site, which is moved
+                   to the other one (deletion of the exon's tail/head, or insertion of the adjacent intronic stretch).
+                   ef = true: the alternative boundary is an exon END (A5SS on +, A3SS on -), ef = false: an exon START
+                   (A3SS on +, A5SS on -). No assumption on the position of the exon in the transcript: first and last
+                   exons (genomic order) are covered;
+         alt_ri  - transcript spliced at upstreamEE/downstreamES (intron inserted) or one exon covers the intron (deleted);
+         alt_mxe - transcript carries U,X,D with X one of the exclusive exons (substituted by the other).
+   Event hypotheses are only the coordinate order rMATS guarantees (e.g. se < le < fs and ls <= se for an exon-end
+   event). *)
+Theorem rmats_reproduces_isoform :
   (forall g chrom es ee us ue ds de c id rs,
    wf_gene g chrom -> ue < es -> es < ee -> ee < ds ->
    se_convert g (gene_seq (g_strand g) chrom (g_start g) (g_end g)) es ee us ue ds de c = Ok (id, rs) ->
    forall r, In r rs -> forall t alt,
      0 <= r_tx r -> nth_error (g_txs g) (Z.to_nat (r_tx r)) = Some t ->
      alt_se (t_exons t) (us, ue) (es, ee) (ds, de) = Some alt ->
+     denotes g chrom t r alt) /\
+  (forall (five : bool) g chrom ls le ss se fs fe c id rs,
+   wf_gene g chrom ->
+   let ef := if five then g_strand g =? 1 else negb (g_strand g =? 1) in
+   (ef = true -> se < le /\ le < fs /\ ls <= se) ->
+   (ef = false -> fe < ls /\ ls < ss /\ ss <= le) ->
+   ss_convert five g (gene_seq (g_strand g) chrom (g_start g) (g_end g)) ls le ss se fs fe c = Ok (id, rs) ->
+   forall r, In r rs -> forall t alt,
+     0 <= r_tx r -> nth_error (g_txs g) (Z.to_nat (r_tx r)) = Some t ->
+     ((ef = true /\ (alt_ss (t_exons t) true le se fs = Some alt \/ alt_ss (t_exons t) true se le fs = Some alt)) \/
+      (ef = false /\ (alt_ss (t_exons t) false ls ss fe = Some alt \/ alt_ss (t_exons t) false ss ls fe = Some alt))) ->
      denotes g chrom t r alt) /\
   (forall g chrom ue ds c id rs,
    wf_gene g chrom -> ue < ds ->
@@ -49,8 +59,8 @@ Theorem rmats_reproduces_isoform_partial :
      (alt_mxe (t_exons t) (us, ue) (f1s, f1e) (f2s, f2e) (ds, de) = Some alt \/
       alt_mxe (t_exons t) (us, ue) (f2s, f2e) (f1s, f1e) (ds, de) = Some alt) ->
      denotes g chrom t r alt).
-Proof. exact (conj rmats_se_reproduces (conj rmats_ri_reproduces rmats_mxe_reproduces)). Qed.
-Print Assumptions rmats_reproduces_isoform_partial.
+Proof. exact (conj rmats_se_reproduces (conj rmats_ss_reproduces (conj rmats_ri_reproduces rmats_mxe_reproduces))). Qed.
+Print Assumptions rmats_reproduces_isoform.
 
 (* no record when every junction of the event is already annotated in some isoform of the gene
    (SE: all three junctions; A5SS/A3SS: long and short; MXE: both; RI: a retaining and a splicing isoform exist) *)
@@ -138,6 +148,22 @@ Proof.
   - exists ex_tx1, [], (2, 10), (30, 50), []. cbn. auto.
   - exists ex_tx0, [], (2, 10), (15, 22), [(30, 50)]. cbn. auto.
   - exists ex_tx0, [(2, 10)], (15, 22), (30, 50), []. cbn. auto.
+Qed.
+
+(* A5SS on the plus strand, short form inside the transcript's FIRST exon (the layout of seeded change C16-1): deletion of
+   the exon tail; and the long form from an isoform that carries the short first exon: insertion *)
+Example ex_a5ss_first_exon :
+  (let g := mkGene 1 2 50 [ex_tx0] in
+   exists id r, ss_convert true g (gene_seq 1 ex_chrom 2 50) 2 10 2 6 15 22 ex_counts = Ok (id, [r]) /\ r_kind r = KDel /\
+     alt_ss (t_exons ex_tx0) true 10 6 15 = Some [(2, 6); (15, 22); (30, 50)] /\
+     denotes g ex_chrom ex_tx0 r [(2, 6); (15, 22); (30, 50)]) /\
+  (let t := mkTx [(2, 6); (15, 22); (30, 50)] 2 50 in let g := mkGene 1 2 50 [t] in
+   exists id r, ss_convert true g (gene_seq 1 ex_chrom 2 50) 2 10 2 6 15 22 ex_counts = Ok (id, [r]) /\ r_kind r = KIns /\
+     denotes g ex_chrom t r [(2, 10); (15, 22); (30, 50)]).
+Proof.
+  cbv zeta. split.
+  - do 2 eexists. split; [vm_compute; reflexivity|]. split; [reflexivity|]. split; [reflexivity|]. vm_compute. reflexivity.
+  - do 2 eexists. split; [vm_compute; reflexivity|]. split; [reflexivity|]. vm_compute. reflexivity.
 Qed.
 
 (* RI, minus strand: a spliced isoform gets the intron inserted; a retaining isoform (alone) gets it deleted *)
